@@ -23,7 +23,7 @@ SRequests == { <<[t |-> "q", kind |-> "k1", d |-> "x"], [t |-> "unk", kind |-> "
 \* history contents: a second version of a content so that a rewrite is visible
 Lnk(kind, ds, v) == [k |-> "linkok", kind |-> kind, ds |-> ds, v |-> v]
 HContents == QContents \cup { Ok("k1", {"x"}, 2), Bad("semantic"), Bad("empty"), Bad("dangling"), Lnk("k1", {"x"}, 1),
-                              Lnk("k1", {"y"}, 2), Bad("linkdir"), Bad("dirent") }
+                              Lnk("k1", {"y"}, 2), Bad("linkdir"), Bad("dirent"), Bad("blank"), Bad("nodoc"), Bad("nulldoc") }
 
 \* thorough: 3 directories, 3 kinds, more faults
 TDirLists == { <<"A">>, <<"A", "B">>, <<"B", "A">>, <<"A", "A">>, <<"A", "B", "C">>, <<"C", "A", "B">>,
@@ -47,7 +47,7 @@ T1DirLists == { <<"A", "B">>, <<"B", "A">>, <<"A", "A">> }
 T1Contents == { Ok("k1", {"x"}, 1), Ok("k1", {"y"}, 1), Ok("k1", {"x", "y"}, 1), Bad("syntax"), Bad("dangling") }
 \* quick: one directory (listed once or twice), three Spec names: three-way conflicts, links, a directory named like a Spec
 Q3DirLists == { <<"A">>, <<"A", "A">> }
-Q3Contents == { Ok("k1", {"x"}, 1), Ok("k1", {"x", "y"}, 1), Lnk("k1", {"x"}, 1), Bad("syntax"), Bad("linkdir"), Bad("dirent"), Bad("dangling") }
+Q3Contents == { Ok("k1", {"x"}, 1), Ok("k1", {"x", "y"}, 1), Lnk("k1", {"x"}, 1), Bad("syntax"), Bad("linkdir"), Bad("dirent"), Bad("dangling"), Bad("nodoc") }
 T1Order    == << "a.json", "b.yaml", "c.json", "sub" >>
 \* permissions (the harness runs this universe as an unprivileged user): unreadable files and directories
 PDirLists == { <<"A">>, <<"A", "B">>, <<"B", "A">> }
@@ -55,5 +55,5 @@ PContents == { Ok("k1", {"x"}, 1), Ok("k1", {"x", "y"}, 1), Bad("noperm"), Bad("
 PWContents == { Ok("k1", {"x"}, 2), Ok("k1", {"y"}, 1), Bad("noperm") }
 T2DirLists == { <<"A">> }
 T2Order    == << "U.JSON", "a.json", "n.txt", "noext", "sub", "t.tmp", "x.json.bak" >>
-T2Contents == { Ok("k1", {"x"}, 1), Bad("empty"), Bad("semantic") }
+T2Contents == { Ok("k1", {"x"}, 1), Bad("empty"), Bad("semantic"), Bad("nodoc"), Bad("nulldoc") }
 =============================================================================
